@@ -1,7 +1,7 @@
 (* C18 — batch / sample index layout for all batch shapes, the CIQ broadcast, and the root cache under histories. *)
 From mathcomp Require Import all_ssreflect all_algebra.
 From mathcomp Require Import zify.
-Require Import C18.Model C18.ModelBatch C18.ProofsIdx C18.ProofsLinear C18.ProofsGram.
+Require Import C18.Model C18.ModelBatch C18.ProofsIdx C18.ProofsLinear C18.ProofsGram C18.ProofsChol.
 Set Implicit Arguments.
 Unset Strict Implicit.
 Unset Printing Implicit Defensive.
@@ -370,3 +370,82 @@ by rewrite oner_eq0.
 Qed.
 
 End CiqShortcut.
+
+
+(* ------------------------------------------------------------------ (4) every selectable root method returns a true root
+   of every batch member *)
+Section Method.
+Variable F : rcfType.
+Notation RA := (RA F).
+Notation rd := (@rd F RA).
+Variables (bs : seq nat) (n : nat) (A : seq F).
+Let B := prodn bs.
+
+(* evals.clamp_min(0.0) *)
+Definition clamp0 (x : F) : F := if 0 <= x then x else 0.
+
+(* (w, Q): an eigendecomposition of every member, eigenvalues >= 0 (the operator is PSD) *)
+Definition eig_valid (wQ : seq F * seq F) : Prop :=
+  (forall b a, (b < B)%N -> (a < n)%N -> 0 <= rd wQ.1 (b * n + a)) /\
+  (forall b i j, (b < B)%N -> (i < n)%N -> (j < n)%N ->
+     \sum_(a < n) rd wQ.2 ((b * n + i) * n + a) * rd wQ.1 (b * n + a) * rd wQ.2 ((b * n + j) * n + a) =
+     rd A ((b * n + i) * n + j)).
+
+Lemma eig_root_valid wQ : eig_valid wQ -> root_valid bs n A n (eig_root RA clamp0 B n wQ.1 wQ.2).
+Proof.
+case=> hpos hdec b i j hb hi hj; rewrite -hdec //; apply: eq_bigr => a _.
+have ha : (a < n)%N by [].
+rewrite /eig_root !rd_tab3 //= /clamp0 hpos //.
+by rewrite mulrACA -expr2 sqr_sqrtr ?hpos // mulrAC.
+Qed.
+
+Lemma chol_root_valid : chol_ok B n A -> root_valid bs n A n (chol_flat RA B n A).
+Proof.
+move=> hok b i j hb hi hj; case: (hok b hb) => hsym hp.
+rewrite -[RHS]/(Ab n A b i j) -(chol_gram hsym hp hi hj); apply: eq_bigr => l _.
+by rewrite !rd_chol_flat.
+Qed.
+
+Theorem every_method_root (st : sett) (c : cstate) sym dia lz chol_fails :
+  eig_valid sym -> eig_valid dia -> root_valid bs n A lz.1 lz.2 -> (chol_fails = false -> chol_ok B n A) ->
+  let rR := method_root RA clamp0 (choose_root_method st c n) B n A sym dia lz chol_fails in
+  root_valid bs n A rR.1 rR.2.
+Proof.
+move=> hs hd hl hc; case: (choose_root_method st c n) => /=.
+- exact: eig_root_valid.
+- exact: eig_root_valid.
+- exact: hl.
+- case: chol_fails hc => hc /=; first exact: eig_root_valid.
+  by apply: chol_root_valid; apply: hc.
+Qed.
+
+End Method.
+
+(* a rank cut-off `evals > evals.max() * n * eps` with the max over the WHOLE batch is not a per-member filter: a valid
+   eigendecomposition of a PSD batch whose second member is smaller than the first gets a zero root for that member *)
+Section MethodRefute.
+Variable F : rcfType.
+Notation RA := (RA F).
+
+Theorem eig_root_batch_cutoff_refuted :
+  exists (bs : seq nat) (n : nat) (A : seq F) (wQ : seq F * seq F) (wmax eps : F),
+    [/\ 0 < eps, eig_valid bs n A wQ, (forall x, x \in wQ.1 -> x <= wmax) &
+        ~ root_valid bs n A n (eig_root RA (fun x => if wmax * n%:R * eps < x then x else 0) (prodn bs) n wQ.1 wQ.2)].
+Proof.
+exists [:: 2%N], 1%N, [:: 2%:R; 1], ([:: 2%:R; 1], [:: 1; 1]), 2%:R, 1.
+split; first exact: ltr01.
+- split.
+    move=> b a; rewrite /prodn /= muln1 => hb; rewrite ltnS leqn0 => /eqP ->.
+    by case: b hb => [|[|//]] _; rewrite /Model.rd /= ?ler0n ?ler01.
+  move=> b i j; rewrite /prodn /= muln1 => hb; rewrite !ltnS !leqn0 => /eqP -> /eqP ->.
+  rewrite big_ord_recl big_ord0 addr0.
+  by case: b hb => [|[|//]] _; rewrite /Model.rd /= ?mul1r ?mulr1.
+- move=> x; rewrite !inE => /orP [/eqP ->|/eqP ->] //.
+  by rewrite -[1]/(1%:R) ler_nat.
+move=> /(_ 1%N 0%N 0%N); rewrite /prodn /= => /(_ isT isT isT).
+rewrite big_ord_recl big_ord0 addr0 /eig_root /tab3 /= /Model.rd /= !mulr1.
+rewrite -[1]/(1%:R) ltr_nat /= sqrtr0 mulr0 mul0r => /eqP.
+by rewrite eq_sym oner_eq0.
+Qed.
+
+End MethodRefute.
